@@ -161,6 +161,10 @@ impl BucketedPool {
       sizes.push(current_size);
       current_size *= growth_factor;
     }
+    // Make sure the largest bucket can hold `max_buffer_size` even when it is not on the growth ladder.
+    if sizes.last().is_some_and(|&size| size < max_buffer_size) {
+      sizes.push(max_buffer_size);
+    }
 
     // Top-Down Allocation (Iterate Largest -> Smallest)
     // We use reverse iterator to prioritize allocating the "Universal Donors" (large buckets).
